@@ -180,7 +180,7 @@ pub struct World {
     pub last_events: Vec<Vec<String>>,
     pub last_raw: Vec<Vec<HandlerOut>>,
     /// (node, requester, request id) of the response the application handed over in this step
-    pub last_responded: Option<(usize, NodeAddress, Vec<u8>)>,
+    pub last_responded: Option<(usize, NodeAddress, Vec<u8>, usize)>,
     /// (node, remote id, remote address) -> sequence number of the record the application supplied
     /// with its latest who-are-you answer
     pub way_answers: BTreeMap<(usize, [u8; 32], SocketAddr), u64>,
@@ -769,7 +769,7 @@ impl World {
             }
             Ev::Respond(n) => {
                 let (addr, req) = self.nodes[*n].inbound.remove(0);
-                self.last_responded = Some((*n, addr.clone(), req.id.0.clone()));
+                self.last_responded = Some((*n, addr.clone(), req.id.0.clone(), 0));
                 let shape = (0..self.cfg.workload.len()).find(|k| workload_id(*k) == req.id.0).map(|k| self.cfg.workload[k].body.clone());
                 let responses: Vec<v::ResponseBody> = match (&req.body, shape) {
                     (v::RequestBody::Ping { .. }, _) => vec![v::ResponseBody::Pong { enr_seq: 1, ip: addr.socket_addr.ip(), port: addr.socket_addr.port().try_into().unwrap() }],
@@ -786,6 +786,9 @@ impl World {
                     }
                     (v::RequestBody::Talk { .. }, _) => vec![v::ResponseBody::Talk { response: vec![1] }],
                 };
+                if let Some(l) = self.last_responded.as_mut() {
+                    l.3 = responses.len();
+                }
                 for b in responses {
                     let _ = self.nodes[*n].tx.send(HandlerIn::Response(addr.clone(), Box::new(v::Response { id: req.id.clone(), body: b })));
                 }
@@ -1063,15 +1066,20 @@ impl World {
                     }
                 }
             }
-            if let Some((i, addr, id)) = responded {
+            if let Some((i, addr, id, count)) = responded {
                 let had_session = pre[i].as_ref().map(|p| p.sessions.iter().any(|s| s.addr == addr)).unwrap_or(false);
                 if had_session {
                     let me = self.nodes[i].addr;
-                    let sent = self.log[self.log_mark..].iter().any(|d| d.src == me && d.dst == addr.socket_addr && matches!(self.read(d).0, Plain::Response(ref rid, _) if *rid == id));
-                    if sent {
+                    let sent = self.log[self.log_mark..].iter().filter(|d| d.src == me && d.dst == addr.socket_addr && matches!(self.read(d).0, Plain::Response(ref rid, _) if *rid == id)).count();
+                    if sent >= count && count > 0 {
                         self.count("responses_put_on_the_wire");
+                        if count > 30 {
+                            self.count("response_bursts_above_30_datagrams");
+                        }
                     } else {
-                        self.violate("C20", "each delivered request leads to exactly one response to the node address it came from", "response-not-sent", format!("node {i} holds a session with {} but emitted no response datagram for the request its application answered", addr.socket_addr));
+                        let detail = format!("node {i} holds a session with {} but emitted {sent} of the {count} response datagram(s) its application handed over", addr.socket_addr);
+                        self.violate("C20", "each delivered request leads to exactly one response to the node address it came from", "response-not-sent", detail.clone());
+                        self.violate("C14", "every request is answered: all response packets handed over by the application are put on the wire", "response-not-sent", detail);
                     }
                 }
             }
@@ -1213,6 +1221,9 @@ impl World {
                         let post_peers: Vec<&NodeAddress> = q.sessions.iter().map(|s| &s.addr).collect();
                         let added: Vec<_> = post_peers.iter().filter(|a| !pre_peers.contains(a)).collect();
                         let missing: Vec<_> = pre_peers.iter().filter(|a| !post_peers.contains(a)).collect();
+                        if std::env::var("VERIF_DEBUG").is_ok() && (!added.is_empty() || !missing.is_empty()) {
+                            eprintln!("   [capacity] node {i}: pre {:?} post {:?} cap {cap}", pre_peers.iter().map(|a| a.socket_addr).collect::<Vec<_>>(), post_peers.iter().map(|a| a.socket_addr).collect::<Vec<_>>());
+                        }
                         if p.sessions.len() == cap && added.len() == 1 && missing.len() == 1 {
                             self.count("capacity_evictions");
                             if *missing[0] != pre_peers[0] {
@@ -1284,7 +1295,13 @@ impl World {
             if let Some(s) = s {
                 let age = s.published.elapsed();
                 let timeout = self.cfg.session_timeout;
-                let sessions: Vec<((String, [u8; 4]), bool, bool, bool)> = s.sessions.iter().map(|x| (pa(&x.addr), x.old_keys.is_some(), x.awaiting_enr.is_some(), timeout.map(|t| x.idle + age > t).unwrap_or(false))).collect();
+                // idle time in quarters of the session timeout (not just "expired or not": how long a
+                // live session has been idle decides what the next idle period does to it)
+                let sessions: Vec<((String, [u8; 4]), bool, bool, u64)> = s
+                    .sessions
+                    .iter()
+                    .map(|x| (pa(&x.addr), x.old_keys.is_some(), x.awaiting_enr.is_some(), timeout.map(|t| (((x.idle + age).as_millis() * 4) / t.as_millis().max(1)).min(9) as u64).unwrap_or(0)))
+                    .collect();
                 let mut active: Vec<((String, [u8; 4]), i32, bool, bool, u8, Option<u64>, i32)> = s.active_requests.iter().map(|a| (pa(&a.addr), idclass(&a.id), a.handshake_sent, a.initiating_session, a.retries, a.remaining_responses, rank(a.remaining, age))).collect();
                 active.sort();
                 let pending: Vec<((String, [u8; 4]), Vec<i32>)> = s.pending_requests.iter().map(|(a, ids)| (pa(a), ids.iter().map(|(id, _)| idclass(id)).collect())).collect();
